@@ -891,15 +891,16 @@ class Enum(Generic, PrimitiveType):
 
   def __init__(
       self,
-      default: typing.Any,
-      values: typing.List[typing.Any],
+      default: typing.Any = MISSING_VALUE,
+      values: typing.Optional[typing.List[typing.Any]] = None,
       frozen: bool = False,
   ):
     """Constructor.
 
     Args:
-      default: default value for this spec.
-      values: all acceptable values.
+      default: default value for this spec. `MISSING_VALUE` (the default)
+        means the enum has no default value.
+      values: all acceptable values (required, a non-empty list).
       frozen: If True, values other than the default value is not accceptable.
     """
     if not isinstance(values, list) or not values:
